@@ -43,6 +43,13 @@ impl Intent {
             Op::AspaDel { ca, customer } => {
                 self.aspas.entry(ca.clone()).or_default().remove(customer);
             }
+            Op::AspaSwap { ca, remove, customer, providers } => {
+                let defs = self.aspas.entry(ca.clone()).or_default();
+                defs.remove(remove);
+                let mut p = providers.clone();
+                p.sort();
+                defs.insert(*customer, p);
+            }
             Op::AspaProviders { ca, customer, add, del } => {
                 // (an accepted update for a customer without definition
                 // creates the definition from the added providers)
@@ -252,6 +259,11 @@ impl Model for C01Model {
             Op::Roa { ca: c(), add: vec![ROA_B.into(), ROA_C.into(), ROA_D.into()], del: vec![ROA_A.into()] },
             Op::Roa { ca: c(), add: vec![ROA_A.into()], del: vec![ROA_B.into(), ROA_C.into(), ROA_D.into()] },
             Op::AspaSet { ca: c(), customer: 65000, providers: vec![65001] },
+            // one update that removes one customer's definition and adds
+            // another's
+            Op::AspaSwap { ca: c(), remove: 65000, customer: 65001, providers: vec![65002] },
+            // all authorisations of an aggregating class removed at once
+            Op::Roa { ca: c(), add: vec![], del: vec![ROA_B.into(), ROA_C.into(), ROA_D.into()] },
             // a providers-only update of an existing definition (add only,
             // remove only)
             Op::AspaProviders { ca: c(), customer: 65000, add: vec![65002], del: vec![] },
